@@ -204,6 +204,9 @@ class Prog(nn.Module):
         if k == "fan":  # fan-out: one tensor used by several consumers
             a = torch.tanh(x)
             return a * x + a
+        if k == "passfan":  # a pass-through node (.contiguous() of a contiguous tensor returns the SAME tensor object) whose producer has a second consumer
+            a = torch.tanh(x)
+            return a.contiguous() * 2.0 + a
         if k == "mask":  # bool intermediate
             m = x > 0
             return torch.where(m, x, x * 0.5)
@@ -438,7 +441,7 @@ def tprograms(tier: str) -> List[Any]:
     """family for the scale-tracking / pruning checks: C16-style programs + fan-out, bool/int intermediates, views,
     negations, multiple outputs, parameters"""
     th = tier == "thorough"
-    base = ["lin", "flin", "gelu", "ln", "sm", "attn", "tanh", "mul", "neg", "reshape", "fan", "mask", "idx", "add_in", "add_sc", "iadd_in", "drop", "nconv"]
+    base = ["lin", "flin", "gelu", "ln", "sm", "attn", "tanh", "mul", "neg", "reshape", "fan", "mask", "idx", "add_in", "add_sc", "iadd_in", "drop", "nconv", "passfan"]
     specs: List[Any] = []
     for a in base:
         for head in (None, "mse", "multi"):
